@@ -362,7 +362,7 @@ def specs(tier):
             if v != 'trunc':
                 S.append(_spec('ccm_check_tag', impl, size=50, var=v))
     # ---- server ClientKeyExchange handling inside a real in-process handshake (harness ctrun_hs)
-    for sc in ['rsa_good', 'rsa_bad_pad', 'rsa_bad_sep', 'rsa_bad_version', 'ecdhe_good', 'ecdhe_bad_point', 'ecdh_good', 'ecdh_bad_point']:
+    for sc in ['rsa_good', 'rsa_bad_pad', 'rsa_bad_sep', 'rsa_bad_version', 'rsav_good', 'rsav_bad_version', 'rsav_neg_version', 'ecdhe_good', 'ecdhe_bad_point', 'ecdh_good', 'ecdh_bad_point']:
         S.append(_spec('hs_server_keyx', sc.split('_')[0], 3, scen=sc, harness='ctrun_hs'))
     # ---- primitives
     for p in PRIMS:
